@@ -18,7 +18,11 @@ var c02Mut mon.MutStats
 // re-drives every lint the framework let through directly under the
 // harness's own recover.
 func c02Judge(c *mon.Ctx, o *mon.Obj, desc string) mon.Snap {
-	g := lint.GlobalRegistry()
+	return c02JudgeReg(c, o, desc, lint.GlobalRegistry())
+}
+
+// c02JudgeReg: the same with any registry (and whatever configuration it carries).
+func c02JudgeReg(c *mon.Ctx, o *mon.Obj, desc string, g lint.Registry) mon.Snap {
 	rs, pv, stack := o.Lint(g)
 	c.R.Count("evaluations", 1)
 	c.R.Count("evaluations_"+o.Kind.String(), 1)
@@ -102,13 +106,23 @@ func init() {
 				return err
 			}
 			nSeeds = len(W.Objs)
+			cfgWorkBuild(c)
 			return nil
 		},
-		Cases: func(c *mon.Ctx) int { return nSeeds + c.Pick(60000, 3000000) + directedCount(c) },
+		Cases: func(c *mon.Ctx) int { return nSeeds + c.Pick(60000, 3000000) + directedCount(c) + len(cfgWork) },
 		RunCase: func(c *mon.Ctx, i int) {
 			nMut := nSeeds + c.Pick(60000, 3000000)
 			var o *mon.Obj
 			var desc string
+			if nd := nMut + directedCount(c); i >= nd {
+				cfgWorkRun(c, i-nd, func(o *mon.Obj, reg lint.Registry, desc string) {
+					if fo := o.Reparse(); fo != nil {
+						c02JudgeReg(c, fo, o.Name+"~"+desc, reg)
+						c.R.Count("configured_evaluations", 1)
+					}
+				})
+				return
+			}
 			if i >= nMut {
 				o, desc = directedCase(c, i-nMut)
 				c.R.Count("directed_tried", 1)
@@ -149,6 +163,12 @@ func init() {
 			ev.Coverage["explicit_fatal_lints"] = r.SetKeys("explicit_fatal_lints")
 			ev.Coverage["panicking_lints"] = r.SetKeys("panicking_lints")
 			ev.Coverage["parser_rejected"] = r.Counters["parser_rejected"]
+			ev.Coverage["configured_lints"] = r.SetKeys("configured_lints")
+			ev.Coverage["configured_documents"] = r.Counters["configured_documents"]
+			ev.Coverage["configured_evaluations"] = r.Counters["configured_evaluations"]
+			if r.Counters["configured_evaluations"] == 0 {
+				gates = append(gates, "no configured run observed")
+			}
 			if len(exec)*10 < len(Inv)*8 {
 				gates = append(gates, fmt.Sprintf("only %d of %d lints had their rule body executed", len(exec), len(Inv)))
 			}
